@@ -41,6 +41,7 @@ EXPLANATION += (" R-C09-10 (shared with R-C10-4): per-point knee values are spre
 EXPLANATION += (" R-C09-9: the frame the damage parameter writes its P_RAM column into is the object's own copy, not the caller's table (effect analysis: provenance of the attribute).")
 EXPLANATION += (" R-C09-8: no root finder in the FKM-nonlinear modules is applied to the absolute value of its residual (kink at the root, no sign change); where compute_beta is the closed form -ppf(P_A) / isf(P_A), R-C09-7 records that as the negative standard-normal quantile.")
 EXPLANATION += (' R-C09-11: the closures returned by get_lifetime_functions of the damage calculators (N_max_bearable, failure_probability) write no object state that is not restored in a finally clause of the same closure; otherwise the calculator reports the lifetime of the last queried failure probability.')
+EXPLANATION += (' R-C09-12: in FKMLoadSequence.maximum_absolute_load the selection of the load column applies to the per-node and to the global maximum alike (it is not nested under the per-node switch).')
 ASSUMPTIONS = ["P_Z, P_D, N positive; d_1, d_2, d_RAJ negative (checked by the curve validators)",
                "statistics.NormalDist().inv_cdf is the standard normal quantile"]
 
@@ -124,8 +125,41 @@ class CurveNF:
 
 def run(ctx):
     for r in (_curves, _pram, _constants, _beta, _half, _accumulation, _complement, _signed_residuals, _own_table, _knee_layout,
-              _query_functions_pure):
+              _query_functions_pure, _load_column):
         ctx.attempt(r)
+
+
+def _load_column(ctx):
+    """R-C09-12: the load safety factor refers to the largest absolute LOAD.  A load sequence frame may carry further columns
+    (stress gradients ...); the selection of the load column (`.iloc[:, 0]`) must therefore apply to the per-node maxima AND to
+    the global maximum: it may not sit under the test of the per-node switch, and the global maximum may not be taken over all
+    columns."""
+    prog = ctx.prog
+    ctx.rule("R-C09-12", floor=1, what="the largest absolute load is taken from the load column in the per-node and in the global case")
+    cands = [fi for k, fi in prog.functions.items() if k.startswith("pylife.strength.fkm_load_distribution:") and
+             fi.name == "maximum_absolute_load"]
+    if len(cands) != 1:
+        raise AnalysisError("maximum_absolute_load not found")
+    f = cands[0]
+    switch = [q for q in f.params if q != "self"]
+    sel = [st for st in walk_function(f.node) if isinstance(st, ast.Assign) and isinstance(st.value, ast.Subscript) and
+           isinstance(st.value.value, ast.Attribute) and st.value.value.attr == "iloc" and isinstance(st.value.slice, ast.Tuple) and
+           len(st.value.slice.elts) == 2 and const_value(st.value.slice.elts[1]) == 0]
+    if not sel:
+        raise AnalysisError("maximum_absolute_load: selection of the load column not found")
+    for st in sel:
+        p_ = getattr(st, "_parent", None)
+        under_switch = False
+        while p_ is not None and p_ is not f.node:
+            if isinstance(p_, ast.If) and any(isinstance(x, ast.Name) and x.id in switch for x in ast.walk(p_.test)):
+                under_switch = True
+            p_ = getattr(p_, "_parent", None)
+        if under_switch:
+            ctx.violated(f, st, "the load column is selected only %s: the other case takes its maximum over every column of the "
+                         "frame, so a pass-through column with larger numbers (a stress gradient) sets L_max and the load safety "
+                         "factor" % "under the per-node switch", text="load column under switch")
+        else:
+            ctx.holds(f, st, "the load column is selected for both the per-node and the global maximum")
 
 
 def state_writes_of_closures(fn_node, methods=None):
